@@ -94,4 +94,171 @@ theorem refNot_eq {N k : Nat} {ws : Words k} {f : Spec.Bits} (h : Rep N k ws f) 
     refNot N ws pos = .ok (!Spec.test f pos) := by
   simp [refNot, refGet_eq h pos hp]
 
+/-! ## whole-set members -/
+
+/-- `reset()` -/
+theorem resetAll_rep {N k : Nat} {ws : Words k} {f : Spec.Bits} (h : Rep N k ws f) :
+    Rep N k (resetAll ws) (Spec.resetAll f) := by
+  refine rep_of_words _ _ (by simp [resetAll, h.len]) (fun q x hx j _ => ?_)
+  simp only [resetAll, List.getElem?_map] at hx
+  cases hq : ws[q]? with
+  | none => simp [hq] at hx
+  | some y =>
+    simp [hq] at hx
+    subst hx
+    simp [Spec.resetAll]
+
+/-- `set()`: the padding bits of the last word stay zero -/
+theorem setAll_rep {N k : Nat} {ws : Words k} {f : Spec.Bits} (hN : 0 < N) (h : Rep N k ws f) :
+    ∃ ws', setAll N ws = .ok ws' ∧ Rep N k ws' (Spec.setAll f) := by
+  have hnw := numWords_pos N k hN
+  have hlen := h.len
+  have hpadd := padding_add N k
+  by_cases hp : hasPadding N k = true
+  · obtain ⟨m, hm, hmb⟩ := paddingMaskInv_spec N k hN
+    have hne : ws.length ≠ 0 := by omega
+    have hlt : numWords N k - 1 <
+        ((ws.take (ws.length - 1)).map (fun _ => ones k) ++ ws.drop (ws.length - 1)).length := by
+      simp; omega
+    simp only [setAll, hp, if_true, hne, if_false, hm, ok_bind, wr_ok m hlt]
+    refine ⟨_, rfl, rep_of_words _ _ (by simp; omega) (fun q x hx j hj => ?_)⟩
+    rw [List.getElem?_set] at hx
+    by_cases hq : numWords N k - 1 = q
+    · -- the last word: the inverse padding mask
+      rw [if_pos hq, if_pos hlt] at hx
+      cases hx
+      rw [hmb j hj, ← hq, Nat.sub_mul, Nat.one_mul]
+      have h4 : 2 ^ k ≤ numWords N k * 2 ^ k := Nat.le_mul_of_pos_left _ hnw
+      simp only [Spec.setAll, Bool.and_true]
+      congr 1; apply propext; omega
+    · -- a head word: all ones
+      rw [if_neg hq] at hx
+      have hq' : q < ws.length - 1 := by
+        have : q < ws.length := by
+          have := (List.getElem?_eq_some_iff.mp hx).1
+          simp at this; omega
+        omega
+      rw [List.getElem?_append_left (by simp; omega)] at hx
+      simp only [List.getElem?_map, List.getElem?_take, hq', if_true] at hx
+      have hqs : ws[q]? = some ws[q] := by simp
+      rw [hqs] at hx
+      cases hx
+      have h5 : (q + 1) * 2 ^ k ≤ (numWords N k - 1) * 2 ^ k := Nat.mul_le_mul_right _ (by omega)
+      have h6 := numWords_pred_mul_lt N k hN
+      rw [Nat.add_mul, Nat.one_mul] at h5
+      have : q * 2 ^ k + j < N := by omega
+      simp [ones, Spec.setAll, hj, this]
+  · have hp0 : padding N k = 0 := by simpa [hasPadding] using hp
+    simp only [setAll, hp]
+    refine ⟨_, rfl, rep_of_words _ _ (by simp [hlen]) (fun q x hx j hj => ?_)⟩
+    simp only [List.getElem?_map] at hx
+    cases hq : ws[q]? with
+    | none => simp [hq] at hx
+    | some y =>
+      simp [hq] at hx
+      subst hx
+      have hql : q < numWords N k := by
+        rw [← hlen]; exact (List.getElem?_eq_some_iff.mp hq).1
+      have h5 : (q + 1) * 2 ^ k ≤ numWords N k * 2 ^ k := Nat.mul_le_mul_right _ (by omega)
+      rw [Nat.add_mul, Nat.one_mul] at h5
+      have : q * 2 ^ k + j < N := by omega
+      simp [ones, Spec.setAll, hj, this]
+
+/-- `flip()`: the padding bits of the last word are masked off again -/
+theorem flipAll_rep {N k : Nat} {ws : Words k} {f : Spec.Bits} (hN : 0 < N) (h : Rep N k ws f) :
+    ∃ ws', flipAll N ws = .ok ws' ∧ Rep N k ws' (Spec.flipAll f) := by
+  have hnw := numWords_pos N k hN
+  have hlen := h.len
+  have hpadd := padding_add N k
+  by_cases hp : hasPadding N k = true
+  · obtain ⟨m, hm, hmb⟩ := paddingMaskInv_spec N k hN
+    have hlt : numWords N k - 1 < (ws.map (fun word => ~~~word)).length := by simp; omega
+    simp only [flipAll, hp, if_true, rd_ok hlt, hm, ok_bind, wr_ok _ hlt]
+    refine ⟨_, rfl, rep_of_words _ _ (by simp [hlen]) (fun q x hx j hj => ?_)⟩
+    rw [List.getElem?_set] at hx
+    have hlt' : numWords N k - 1 < ws.length := by omega
+    by_cases hq : numWords N k - 1 = q
+    · rw [if_pos hq, if_pos hlt] at hx
+      cases hx
+      rw [BitVec.getLsbD_and, hmb j hj, List.getElem_map, BitVec.getLsbD_not, h.word _ hlt' j hj, ← hq,
+        Nat.sub_mul, Nat.one_mul]
+      have h4 : 2 ^ k ≤ numWords N k * 2 ^ k := Nat.le_mul_of_pos_left _ hnw
+      have e : (numWords N k * 2 ^ k - 2 ^ k + j < N) = (j < 2 ^ k - padding N k) := by apply propext; omega
+      simp only [e, Spec.flipAll, hj, decide_true, Bool.true_and]
+      cases decide (j < 2 ^ k - padding N k) <;> simp
+    · rw [if_neg hq] at hx
+      simp only [List.getElem?_map] at hx
+      cases hqs : ws[q]? with
+      | none => simp [hqs] at hx
+      | some y =>
+        simp [hqs] at hx
+        subst hx
+        obtain ⟨hql, hqe⟩ := List.getElem?_eq_some_iff.mp hqs
+        subst hqe
+        have h5 : (q + 1) * 2 ^ k ≤ (numWords N k - 1) * 2 ^ k := Nat.mul_le_mul_right _ (by omega)
+        have h6 := numWords_pred_mul_lt N k hN
+        rw [Nat.add_mul, Nat.one_mul] at h5
+        have : q * 2 ^ k + j < N := by omega
+        rw [BitVec.getLsbD_not, h.word _ hql j hj]
+        simp [Spec.flipAll, hj, this]
+  · have hp0 : padding N k = 0 := by simpa [hasPadding] using hp
+    simp only [flipAll, hp]
+    refine ⟨_, rfl, rep_of_words _ _ (by simp [hlen]) (fun q x hx j hj => ?_)⟩
+    simp only [List.getElem?_map] at hx
+    cases hqs : ws[q]? with
+    | none => simp [hqs] at hx
+    | some y =>
+      simp [hqs] at hx
+      subst hx
+      obtain ⟨hql, hqe⟩ := List.getElem?_eq_some_iff.mp hqs
+      subst hqe
+      have h5 : (q + 1) * 2 ^ k ≤ numWords N k * 2 ^ k := Nat.mul_le_mul_right _ (by omega)
+      rw [Nat.add_mul, Nat.one_mul] at h5
+      have : q * 2 ^ k + j < N := by omega
+      rw [BitVec.getLsbD_not, h.word _ hql j hj]
+      simp [Spec.flipAll, hj, this]
+
+/-- `operator~` -/
+theorem not_rep {N k : Nat} {ws : Words k} {f : Spec.Bits} (hN : 0 < N) (h : Rep N k ws f) :
+    ∃ ws', C17.not N ws = .ok ws' ∧ Rep N k ws' (Spec.flipAll f) := flipAll_rep hN h
+
+/-! ## `&=`, `|=`, `^=` -/
+
+theorem transform2_rep {N k : Nat} {a b : Words k} {fa fb : Spec.Bits} (ha : Rep N k a fa) (hb : Rep N k b fb)
+    (g : Word k → Word k → Word k) (g' : Bool → Bool → Bool) (hff : g' false false = false)
+    (hg : ∀ x y j, (g x y).getLsbD j = g' (x.getLsbD j) (y.getLsbD j)) :
+    ∃ ws', transform2 g a b = .ok ws' ∧ Rep N k ws' (fun i => g' (fa i) (fb i)) := by
+  have hl : ¬ b.length < a.length := by rw [ha.len, hb.len]; omega
+  simp only [transform2, hl, if_false]
+  refine ⟨_, rfl, rep_of_words _ _ (by simp [ha.len, hb.len]) (fun q x hx j hj => ?_)⟩
+  rw [List.getElem?_zipWith] at hx
+  cases hqa : a[q]? with
+  | none => simp [hqa] at hx
+  | some xa =>
+    cases hqb : b[q]? with
+    | none => simp [hqa, hqb] at hx
+    | some xb =>
+      simp [hqa, hqb] at hx
+      subst hx
+      obtain ⟨hla, hea⟩ := List.getElem?_eq_some_iff.mp hqa
+      obtain ⟨hlb, heb⟩ := List.getElem?_eq_some_iff.mp hqb
+      subst hea; subst heb
+      rw [hg, ha.word _ hla j hj, hb.word _ hlb j hj]
+      cases decide (q * 2 ^ k + j < N) <;> simp [hff]
+
+/-- `operator&=` (and `operator&`) -/
+theorem andAssign_rep {N k : Nat} {a b : Words k} {fa fb : Spec.Bits} (ha : Rep N k a fa) (hb : Rep N k b fb) :
+    ∃ ws', andAssign a b = .ok ws' ∧ Rep N k ws' (Spec.and fa fb) :=
+  transform2_rep ha hb _ (fun x y => x && y) rfl (fun _ _ _ => BitVec.getLsbD_and)
+
+/-- `operator|=` (and `operator|`) -/
+theorem orAssign_rep {N k : Nat} {a b : Words k} {fa fb : Spec.Bits} (ha : Rep N k a fa) (hb : Rep N k b fb) :
+    ∃ ws', orAssign a b = .ok ws' ∧ Rep N k ws' (Spec.or fa fb) :=
+  transform2_rep ha hb _ (fun x y => x || y) rfl (fun _ _ _ => BitVec.getLsbD_or)
+
+/-- `operator^=` (and `operator^`) -/
+theorem xorAssign_rep {N k : Nat} {a b : Words k} {fa fb : Spec.Bits} (ha : Rep N k a fa) (hb : Rep N k b fb) :
+    ∃ ws', xorAssign a b = .ok ws' ∧ Rep N k ws' (Spec.xor fa fb) :=
+  transform2_rep ha hb _ (fun x y => x != y) rfl (fun _ _ _ => by rw [BitVec.getLsbD_xor])
+
 end Tetl.C17.Props
